@@ -529,6 +529,7 @@ func init() {
 		}
 		l.readers--
 		e.raceLock(mutexPtr(args[0]), lockR, false)
+		e.yieldPoint(args[0])
 		return nil
 	}
 	lock := func(e *Exec, fn *ssa.Function, args []value) value {
@@ -547,6 +548,7 @@ func init() {
 		}
 		l.writer = false
 		e.raceLock(mutexPtr(args[0]), lockW, false)
+		e.yieldPoint(args[0])
 		return nil
 	}
 	stubs["(*sync.RWMutex).Lock"], stubs["(*sync.Mutex).Lock"] = lock, lock
